@@ -193,7 +193,9 @@ func ExecPlan(t *testing.T, h Harness, p *Plan, keepTrace bool) (*Result, *Run) 
 		_ = ok
 	}()
 	wall := time.Since(w0)
+	sh, sn := SchedDigest()
 	res := run.Finish(wall)
+	res.SchedDigest, res.SchedSteps = fmt.Sprintf("%016x", sh), sn
 	if errText != "" {
 		res.Verdict = "error"
 		res.Error = errText
